@@ -26,6 +26,7 @@ class Oracle(object):
         self.touched = set()         # hosts that got a message or were skipped with a recorded reason
         self.qexp = []               # expectations parallel to the executor queue
         self.retry_decisions = 0
+        self.cl_epoch = 0            # bumped by every retry decision that sets a consistency level (the message is shared)
         self.bad = []                # (key, what, theorem)
         self.nha_seen = False
 
@@ -77,8 +78,10 @@ class Oracle(object):
             want_cl = dcl if dcl is not None else pre_cl
             if dec in (0, 3):
                 self.retry_decisions += 1
+                if pre_exc is None and dcl is not None:
+                    self.cl_epoch += 1
                 if pre_exc is None and self.qexp and len(env.queue) == len(pre_queue) + 1:
-                    self.qexp[-1] = {'kind': 'retry', 'reuse': dec == 0, 'host': h, 'cl': want_cl}
+                    self.qexp[-1] = {'kind': 'retry', 'reuse': dec == 0, 'host': h, 'cl': want_cl, 'epoch': self.cl_epoch}
                 if self.which == 'C16':
                     if sends:
                         self.flag('retry.sent_on_event_loop', 'message sent while handling the decision %r' % (op,), 'C16_obeys')
@@ -190,7 +193,8 @@ class Oracle(object):
                     self.flag('skip.not_recorded', 'host %d skipped (%s) but _errors has %r for it (%r)' % (
                         x, H.POOL_NAMES[pools[x]], errs.get(x), op), 'C17_order')
                 self.touched.add(x)
-        if self.which == 'C16' and task_exp and task_exp['kind'] == 'retry':
+        if self.which == 'C16' and task_exp and task_exp['kind'] == 'retry' and task_exp['epoch'] == self.cl_epoch:
+            # (a later decision of a concurrent attempt may have changed the shared message's level: then not compared)
             if snd[3:] != H.enc_opt(task_exp['cl']):
                 self.flag('retry.wrong_consistency', 'retry sent with consistency %r, policy chose %r (%r)' % (snd[3:], task_exp['cl'], op), 'C16_obeys')
         self.cursor = j + 1
@@ -202,7 +206,7 @@ class Oracle(object):
             if self.which == 'C16':
                 if h != t['host'] or snd[2] != 0:
                     self.flag('retry.wrong_host', 'RETRY decided for host %d but the next message went to host %d (%r)' % (t['host'], h, op), 'C16_obeys')
-                elif snd[3:] != H.enc_opt(t['cl']):
+                elif t['epoch'] == self.cl_epoch and snd[3:] != H.enc_opt(t['cl']):
                     self.flag('retry.wrong_consistency', 'RETRY sent with consistency %r, policy chose %r (%r)' % (snd[3:], t['cl'], op), 'C16_obeys')
             return h == t['host']
         if t['kind'] == 'reprepare' and pools[t['host']] == HEALTHY:
